@@ -73,6 +73,13 @@ class FlattenBase(Contract):
         if 'reg_flatten_func' in f.ref.sexpr():
             st.ghost['flatten_result'] = r.ref          # the result of the custom flatten function of THIS node
 
+    def on_getattr(self, eng, st, obj, attr, res, n):
+        if obj.ref.eq(st.get('handle').ref if isinstance(st.get('handle'), PyObj) else st.get('handle')):
+            st.ghost['attr:' + attr] = res.ref            # an attribute of THIS object
+
+    def on_dict_keys_result(self, eng, st, d, r, n):
+        st.ghost['dict_keys'] = r                          # the key list made for THIS dict node
+
     def on_sort(self, eng, st, o, n):
         # C13: dict keys are sorted exactly when DictShouldBeSorted and the node is not an OrderedDict
         node = st.get('node')
@@ -136,6 +143,20 @@ class FlattenBase(Contract):
             out.append(('namedtuple-or-structseq-root-records-the-class',
                         z3.Implies(z3.Or(cl[0] == K['NamedTuple'], cl[0] == K['StructSequence']),
                                    t.sel('node_data', last) == M.py_type(h))))
+            nd = t.sel('node_data', last)
+            g = cx.st.ghost
+            is_k = lambda *names: z3.Or(*[cl[0] == K[nm] for nm in names])
+            out.append(('tuple-list-none-and-leaf-roots-carry-no-metadata', z3.Implies(is_k('Tuple', 'List', 'None', 'Leaf'), nd == NULL)))
+            keys = g.get('dict_keys')
+            out.append(('dict-and-ordereddict-roots-record-the-key-list-that-was-traversed',
+                        z3.Implies(is_k('Dict', 'OrderedDict'), nd == keys if keys is not None else z3.BoolVal(False))))
+            df = g.get('attr:default_factory')
+            out.append(('defaultdict-root-records-(default_factory, the key list that was traversed)',
+                        z3.Implies(is_k('DefaultDict'),
+                                   z3.And(M.py_len(nd) == 2, M.py_item(nd, 0) == df, M.py_item(nd, 1) == keys)
+                                   if keys is not None and df is not None else z3.BoolVal(False))))
+            ml = g.get('attr:maxlen')
+            out.append(('deque-root-records-its-maxlen', z3.Implies(is_k('Deque'), nd == ml if ml is not None else z3.BoolVal(False))))
             fr = cx.st.ghost.get('flatten_result')
             if fr is not None:
                 as_tuple = lambda x: z3.If(M.py_is_tuple(x), x, z3.Function('py_convert_tuple', Ref, Ref)(x))
